@@ -63,6 +63,11 @@ def check_day(ctx, day, tod):
         try:
             got = f()
         except ValueError:
+            # a rejected call leaves nothing behind: year-first and valid dialect strings with day <= 12 still read the same straight afterwards
+            A = datetime.datetime(y, 3, 10)
+            eq('iso date right after the rejected %s' % name, lambda: dt('%04d-03-10' % y), A)
+            eq('yyyymmdd right after the rejected %s' % name, lambda: dt('%04d0310' % y), A)
+            eq('us string right after the rejected %s' % name, lambda: dt('03/10/%04d' % y, dialect='us'), A)
             return
         except Exception as e:
             ctx.fail('wrong_dialect_rejected', '%s raised %s instead of ValueError' % (name, core.exc_str(e)), case=dict(term, spelling=name))
